@@ -23,6 +23,11 @@ pub fn corpus(thorough: bool) -> Vec<(F, Vec<u8>)> {
 				v.push((f, s));
 			}
 		}
+		for s in gen::linebreak_variants(f) {
+			if s.len() <= 200 && f == F::Yaml {
+				v.push((f, s));
+			}
+		}
 	}
 	// valid multi-document streams
 	for s in [
